@@ -26,7 +26,8 @@ TRANSLATOR_ABSENT = _regenerate()
 UNPROVEN = ['gc_div_uc', 'gc_div_ur', 'gc_div_n', 'gc_rdiv_ur', 'gc_rdiv_n', 'gc_pow_uc', 'gc_pow_ur', 'gc_pow_n',
             'gc_rpow_ur', 'gc_rpow_n', 'gc_neg', 'gc_pos', 'gc_conjugate', 'gc_log', 'gc_log10', 'gc_sqrt', 'gc_tan',
             'gc_asin', 'gc_acos', 'gc_atan', 'gc_tanh', 'gc_asinh', 'gc_acosh', 'gc_atanh', 'gc_magnitude',
-            'gc_mag_squared', 'gc_phase']
+            'gc_mag_squared', 'gc_phase',
+            'gr_add_c', 'gr_radd_c', 'gr_sub_c', 'gr_rsub_c', 'gr_mul_c', 'gr_rmul_c', 'gr_div_c', 'gr_rdiv_c', 'gr_pow_c', 'gr_rpow_c']
 PINS = os.path.join(os.path.dirname(os.path.abspath(__file__)), 'C03_pinned.json')
 
 def generated_defs():
@@ -36,7 +37,7 @@ def generated_defs():
     except IOError:
         return {}
     return {m.group(1): hashlib.sha1(m.group(2).encode()).hexdigest()
-            for m in _re.finditer(r'Definition (gc_\w+) \(C : CNum\)[^\n]*:=\n(.*?)\.\n\n', txt, _re.S)}
+            for m in _re.finditer(r'Definition (g[cr]_\w+) \(C : CNum\)[^\n]*:=\n(.*?)\.\n\n', txt, _re.S)}
 
 def pinned_drift():
     cur = generated_defs()
@@ -57,7 +58,10 @@ PARTIAL = ('proved over the reals: all six assemblers compute J*(operand compone
            'JacobianMatrix entries = partial derivatives, u_component = column-scaled (C03_jacobian_entries).  NOT proved (bit-exact '
            'correspondence + oracle + pinned formula hashes only): the generated bodies of / ** neg pos conjugate log log10 sqrt tan tanh asin '
            'acos atan asinh acosh (refuted on Re z < 0: known finding) atanh magnitude mag_squared phase; + and - are proved at formula level, '
-           'not through the denotation; complex dof (willink_hall) is not modelled')
+           'not through the denotation.  Modelled and tied bit-exactly but without analytic theorems: complex dof (willink_hall with the persistent '
+           '_EnsembleComponents accumulators; proved: its result does not depend on the accumulators on entry, C03_dof_entry_independent), '
+           'UncertainComplex.set_correlation, the promotion of an uncertain real by a plain complex number (lib._add ... _rpow; refuted witness '
+           'C01_intermediate_times_complex_refuted)')
 ASSUMPTIONS = ['rounding error of float arithmetic is not bounded by proof (theorems are over the reals)',
                'cmath functions and the general complex power are oracles over floats; over the reals they are the principal-branch '
                'functions of CplxR.v, whose values ON a branch cut are not those of the signed-zero implementation']
@@ -66,216 +70,14 @@ TRUSTED = ['harness/C03_pinned.json: hashes of the generated definitions not yet
            'translator tools/tr_lib_complex.py (UncertainComplex operator/function bodies -> Gallina, fail-closed), run at import of harness/p_C03.py',
            'harness/ckernel.py: cmath recording proxy, rule-based rows for complex ** and abs()']
 
-# ------------------------------------------------------------------ points
-E = 2.0 ** -30          # exact small offset from a cut
-QUADS = [1.25 + 0.75j, -1.25 + 0.75j, -1.25 - 0.75j, 1.25 - 0.75j, 0.3 + 2.5j, -0.3 + 2.5j, -0.3 - 2.5j, 0.3 - 2.5j,
-         3 + 0.125j, -3 + 0.125j, -3 - 0.125j, 3 - 0.125j, 0.0625 + 0.03125j, -0.0625 - 0.03125j]
-def cut_points():
-    pts = []
-    for a in (0.5, 2.0, 7.5):
-        for sr in (1, -1):
-            for e in (E, -E, 0.0, -0.0):
-                pts.append(complex(sr * a, e))      # both sides of the real axis (log sqrt asin acos acosh atanh cuts)
-                pts.append(complex(e, sr * a))      # both sides of the imaginary axis (atan asinh cuts)
-    return pts
-SPECIAL = [0j, complex(0.0, -0.0), complex(-0.0, 0.0), 1 + 0j, -1 + 0j, 1j, -1j, 1e-9 + 1e-9j, 1e3 - 2e3j, 1e200 + 1e200j,
-           -2 + 1j, complex(1, E), complex(-1, -E), 710.0 + 1j]
-ALL_POINTS = QUADS + cut_points() + SPECIAL
-
-UFORMS = [0.5, (0.5, 0.25), (0.25, 0.0), (0.0, 0.125), (1.0, 0.2, 0.2, 2.0), (0.04, -0.01, -0.01, 0.09), 1.0]
-
-def declare(s, rng, z, kind):
-    """declare a complex operand of the given kind with value z; returns the slot naming it"""
-    before = set(s.cplx_slots())
-    if kind == 'elem':
-        s.ucomplex(z, rng.choice(UFORMS[:4] + [1.0]), rng.choice([math.inf, 5.0]), label=rng.choice([None, 7]), indep=True)
-    elif kind == 'corr':
-        s.ucomplex(z, rng.choice(UFORMS[4:6]), math.inf, indep=rng.random() < 0.5)
-    elif kind == 'dep':
-        s.ucomplex(z, (0.5, 0.25), math.inf, indep=False)
-    elif kind == 'ens':
-        s.cmultiple([z, z.conjugate() + 1], [rng.choice(UFORMS[:2] + UFORMS[4:6]), (0.1, 0.2)], rng.choice([4.0, math.inf]))
-    elif kind == 'const':
-        if rng.random() < 0.5: s.cconstant(z, label=rng.choice([None, 2]))
-        else: s.ucomplex(z, 0.0)
-    elif kind == 'interm':
-        i = declare(s, rng, z * 0.5, 'elem')
-        if i is None: return None
-        s.cbin('mul', ('c', i), ('n', 2.0))
-        j = max(s.cplx_slots())
-        s.cresult(j, label=rng.choice([None, 11]))
-    new = [i for i in s.cplx_slots() if i not in before]
-    if not new: return None
-    if kind == 'ens': return new[-2]
-    return new[-1]
-
-CKINDS = ['elem', 'corr', 'dep', 'ens', 'interm', 'const']
-
-def observe(s, y, xs, real_y=False):
-    """sensitivity / u_component of result y w.r.t. the operands xs"""
-    for x in xs:
-        s.csens(('r', y) if real_y else ('c', y), x)
-        s.cucomp(('r', y) if real_y else ('c', y), x)
-
-def fun_session(rng, ctx, f, pts):
-    s = CSession(ctx); s.tag = 'fun:' + f
-    for k, z in enumerate(pts):
-        kind = CKINDS[(k + len(f)) % len(CKINDS)] if rng.random() < 0.8 else rng.choice(CKINDS)
-        i = declare(s, rng, z, kind)
-        if i is None: continue
-        n0 = len(s.slots)
-        s.cun(f, i)
-        if s.slots[n0] is None: continue
-        xs = [('c', i), ('r', i), ('r', i + 1)]
-        observe(s, n0, xs[:2] if rng.random() < 0.5 else xs, real_y=f in REAL_RESULT)
-        if rng.random() < 0.3 and f not in REAL_RESULT:
-            s.cread(rng.choice(['x', 'u', 'v', 'r']), n0)
-    s.heap_ok = s.check_heap(); s.close()
-    return s
-
-NUMS = [0, 1, 0.0, 1.0, -0.0, 2, -1, 0.5, 2.5, -3.25, 0j, 1 + 0j, complex(1, -0.0), 1j, 2 - 1j, -0.5 + 0.25j, complex(0.0, 0.0), 3 + 0j]
-
-def operand(s, rng, kind, z):
-    """returns an argument descriptor ('c',i) / ('r',i) / ('n',v)"""
-    if kind in CKINDS:
-        i = declare(s, rng, z, kind)
-        return None if i is None else ('c', i)
-    if kind == 'ur':
-        n0 = len(s.slots); s.ureal(z.real if z.real != 0 or rng.random() < 0.3 else 1.5, rng.choice([0.25, 1.0]), rng.choice([math.inf, 3.0]),
-                                   indep=rng.random() < 0.7)
-        return ('r', n0)
-    if kind == 'urconst':
-        n0 = len(s.slots); s.constant(z.real); return ('r', n0)
-    if kind == 'urinterm':
-        n0 = len(s.slots); s.ureal(z.real, 0.5); s.bin('mul', ('ref', n0), ('num', 1.5)); s.result(n0 + 1)
-        return ('r', n0 + 2)
-    if kind == 'int': return ('n', rng.choice([0, 1, 2, -1, 3, int(z.real) or 2]))
-    if kind == 'float': return ('n', rng.choice([0.0, 1.0, -0.0, 0.5, z.real, z.imag]))
-    if kind == 'complex': return ('n', rng.choice([0j, 1 + 0j, 1j, z, z.conjugate(), complex(z.real, 0.0)]))
-
-NKINDS = ['ur', 'urconst', 'urinterm', 'int', 'float', 'complex']
-
-def op_session(rng, ctx, f, pairs):
-    s = CSession(ctx); s.tag = 'op:' + f
-    for (ka, kb) in pairs:
-        za = rng.choice(QUADS + [0j, 1 + 0j, -2 + 1j, 2 + 0j]); zb = rng.choice(QUADS + [0j, 1 + 0j, 1j, 2 + 0j, 0.5 + 0j])
-        a = operand(s, rng, ka, za)
-        b = a if (ka == kb and rng.random() < 0.15) else operand(s, rng, kb, zb)
-        if a is None or b is None: continue
-        n0 = len(s.slots)
-        s.cbin(f, a, b)
-        if s.slots[n0] is None: continue
-        xs = [x for x in (a, b) if x[0] != 'n']
-        if rng.random() < 0.5: xs += [x if x[0] == 'r' else ('r', x[1] + 1) for x in xs[:1]]
-        if rng.random() < 0.2: xs.append(('n', 2.5))
-        observe(s, n0, xs)
-        if rng.random() < 0.25: s.cread(rng.choice(['x', 'u', 'v', 'r']), n0)
-    s.heap_ok = s.check_heap(); s.close()
-    return s
-
-def rand_session(rng, ctx, size, malformed=False):
-    """a random program mixing complex and real operations, sharing, result(), reads, correlations"""
-    s = CSession(ctx); s.tag = 'random'
-    for _ in range(rng.randint(1, 3)):
-        declare(s, rng, rng.choice(QUADS), rng.choice(CKINDS))
-    if rng.random() < 0.7: s.ureal(rng.uniform(-2, 2), rng.choice([0.1, 0.5]), rng.choice([math.inf, 6.0]), indep=rng.random() < 0.6)
-    if malformed:
-        bad = rng.choice([(complex(math.nan, 1), 1.0, math.inf), (1j, -1.0, math.inf), (1j, (1.0, -2.0), math.inf), (1j, math.inf, math.inf),
-                          (1j, math.nan, 3.0), (1j, 1.0, 0.5), (1j, 1.0, math.nan), (1j, (1.0, 0.2, 0.3, 1.0), math.inf),
-                          (1j, (1.0, 5.0, 5.0, 1.0), math.inf), (1j, (1.0, 2.0, 3.0), math.inf), (1j, (-1.0, 0.0, 0.0, 1.0), math.inf),
-                          (complex(math.inf, 0), 1.0, math.inf), (1j, (0.0, 0.5, 0.5, 1.0), math.inf), (1j, (1.0, math.inf, math.inf, 1.0), 4.0)])
-        s.ucomplex(bad[0], bad[1], bad[2])
-    def cs(): return s.cplx_slots()
-    def rs(): return [i for i, o in enumerate(s.slots) if isinstance(o, s.UR)]
-    while len(s.ops) < size:
-        c = rng.random(); C = cs()
-        if not C: break
-        a = rng.choice(C)
-        va = s.cobj(a)._value
-        if c < 0.28:
-            f = rng.choice(CUNOPS)
-            if not malformed or rng.random() < 0.6:
-                if f in ('exp', 'sinh', 'cosh', 'sin', 'cos', 'tan', 'tanh') and (abs(va.real) > 300 or abs(va.imag) > 300): f = 'conjugate'
-                if f in ('log', 'log10', 'magnitude') and va == 0: f = 'pos'
-            s.cun(f, a)
-        elif c < 0.62:
-            f = rng.choice(CBINOPS)
-            k = rng.random()
-            if k < 0.4: A, B = ('c', a), ('c', rng.choice(C))
-            elif k < 0.55 and rs(): A, B = ('c', a), ('r', rng.choice(rs()))
-            elif k < 0.7 and rs(): A, B = ('r', rng.choice(rs())), ('c', a)
-            elif k < 0.85: A, B = ('c', a), ('n', rng.choice(NUMS))
-            else: A, B = ('n', rng.choice(NUMS)), ('c', a)
-            if not malformed or rng.random() < 0.6:
-                vb = s._val(B)
-                if f == 'div' and vb == 0: f = 'add'
-                if f == 'pow' and (s._val(A) == 0 or abs(vb) > 8 or abs(s._val(A)) > 50): f = 'mul'
-            s.cbin(f, A, B)
-        elif c < 0.70:
-            s.cresult(a, label=rng.choice([None, rng.randint(10, 19)]))
-        elif c < 0.80:
-            s.cread(rng.choice(['x', 'u', 'v', 'r']), a)
-        elif c < 0.86:
-            # real reads on the components, correlations between component leaves
-            k = rng.random()
-            if k < 0.5: s.read(rng.choice(['x', 'u', 'v', 'df']), rng.choice([a, a + 1]))
-            else:
-                el = [i for i in rs() if s.slots[i].is_elementary and not s.slots[i]._node.independent]
-                if len(el) >= 2:
-                    x, y = rng.sample(el, 2)
-                    s.set_corr(rng.choice([0.5, -0.3, 0.9]), x, y)
-        else:
-            X = rng.choice(C); k = rng.random()
-            y = ('c', a) if k < 0.7 or not rs() else ('r', rng.choice(rs()))
-            x = ('c', X) if rng.random() < 0.6 else (('r', rng.choice(rs())) if rs() else ('n', 1j))
-            (s.csens if rng.random() < 0.5 else s.cucomp)(y, x)
-    C = cs()
-    for a in rng.sample(C, min(len(C), 3)):
-        s.cread('v', a); s.cread('r', a)
-        for X in rng.sample(C, min(len(C), 2)):
-            s.cucomp(('c', a), ('c', X))
-    s.heap_ok = s.check_heap(); s.close()
-    return s
+from cgen import *      # generators, QUADS, run_ckernel_corr
 
 def correspondence(rng, tier):
-    sessions = []; ctx = [0]
-    def nxt():
-        ctx[0] += 1; return ctx[0]
-    reps = 1 if tier == 'quick' else 6
-    for rep in range(reps):
-        # (a) every function x all four quadrants x both sides of each cut x special points, operand kinds rotating
-        for f in CUNOPS:
-            pts = list(ALL_POINTS); rng.shuffle(pts)
-            for g in range(0, len(pts), 13):
-                sessions.append(fun_session(rng, nxt(), f, pts[g:g + 13]))
-        # (b) every operator x every ordered pair of operand kinds (at least one uncertain complex)
-        pairs = [(a, b) for a in CKINDS for b in CKINDS + NKINDS] + [(a, b) for a in NKINDS for b in CKINDS]
-        for f in CBINOPS:
-            P = list(pairs); rng.shuffle(P)
-            for g in range(0, len(P), 12):
-                sessions.append(op_session(rng, nxt(), f, P[g:g + 12]))
-    # (c) random programs
-    nrand = 60 if tier == 'quick' else 1500
-    for i in range(nrand):
-        sessions.append(rand_session(rng, nxt(), rng.randint(10, 28), malformed=(i % 6 == 5)))
-    mism = ckernel.run_sessions(sessions, 'C03', per_file=max(8, (len(sessions) + NCPU - 1) // NCPU) if tier == 'quick' else 60)
+    r = run_ckernel_corr(rng, 'all', 'C03', tier)
     if TRANSLATOR_ABSENT:
-        mism.append({'kind': 'translator', 'absent': TRANSLATOR_ABSENT})
-    mism.extend(pinned_drift())
-    stats = collections.Counter()
-    for s in sessions: stats.update(s.stats)
-    tags = collections.Counter(s.tag.split(':')[0] for s in sessions)
-    distinct = len(set(hashlib.sha1(repr(s.pyops).encode()).hexdigest() for s in sessions if len(s.ops) > 3))
-    return {'programs': len(sessions), 'steps': sum(len(s.ops) for s in sessions), 'mismatches': mism,
-            'distinct': distinct, 'distribution': dict(stats, **{'sessions_' + k: v for k, v in tags.items()}),
-            'rule': 'systematic: each of the 22 complex functions/unary operators at %d points (four quadrants, both sides of and ON every '
-                    'branch cut by exact offsets 2^-30 and signed zeros, zero, huge/small modulus) with operand kinds rotating over '
-                    '{elementary independent, correlated (4-element covariance), dependent, ensemble member (multiple_ucomplex), intermediate, '
-                    'constant}; each of + - * / ** for every ordered pair of operand kinds incl. ureal / constant / intermediate ureal / int / '
-                    'float / complex; plus random mixed programs with a malformed stream; after every operation the value and the u/d/i component '
-                    'vectors of both component reals, reporting.sensitivity and u_component (4-tuples) and x/u/v/r reads are compared bit for bit '
-                    'with the binary64 model; non-trivial = more than 3 steps; distinct by hash of the operation list' % len(ALL_POINTS),
-            'samples': [{'program': repr(s.pyops[:8])} for s in sessions[:2]]}
+        r['mismatches'].append({'kind': 'translator', 'absent': TRANSLATOR_ABSENT})
+    r['mismatches'].extend(pinned_drift())
+    return r
 
 # ------------------------------------------------------------------ oracle (search only)
 PLAIN = {'exp': cmath.exp, 'log': cmath.log, 'log10': cmath.log10, 'sqrt': cmath.sqrt, 'sin': cmath.sin, 'cos': cmath.cos,
@@ -477,3 +279,20 @@ def known_pow_zero_base():
     except Exception as ex:
         return False, repr(ex)
     return False, 'no exception'
+
+def kf_C01_intermediate_times_complex():
+    """C01: result(x) (op) complex literal raises AssertionError: the promotion code of lib._add/_mul/... reuses the
+    intermediate operand itself as one component (x + 0.0 -> x, x * 1.0 -> x) and UncertainComplex.__init__ asserts
+    that both components have the same is_intermediate"""
+    from GTC import core
+    new_context(9)
+    x = core.result(core.ureal(2.0, 0.5) * 1.5)
+    hits = []
+    for name, th in (('result(x)+1j', lambda: x + 1j), ('result(x)*1j', lambda: x * 1j), ('result(x)*(2+1j)', lambda: x * (2 + 1j))):
+        try:
+            th()
+        except AssertionError:
+            hits.append(name)
+        except Exception as ex:
+            return False, '%s raised %r' % (name, ex)
+    return len(hits) == 3, hits
